@@ -56,7 +56,7 @@ warnings.simplefilter("ignore")
 sys.unraisablehook = lambda *a: None
 
 VALS = [0, 1, 2, 3]
-THROWN = ["E1", "E2", "GE", "CE", "BE", "RT"]
+THROWN = ["E1", "E2", "GE", "CE", "BE", "RT", "FE"]
 
 
 # ---------------------------------------------------------------------------------------
@@ -126,7 +126,7 @@ def gen_script(rng):
         elif r < 0.85:
             script.append(("send", rng.choice(VALS)))
         else:
-            script.append(("throw", rng.choice(["E1", "E2", "CE", "BE", "RT"])))
+            script.append(("throw", rng.choice(["E1", "E2", "CE", "BE", "RT", "FE"])))
     return script
 
 
@@ -292,8 +292,15 @@ class Side:
         self.given = None
         self.last_exc = None
         n0 = len(self.log.caught)
-        aw = self.mk(op, anext)
-        out, det, pend = self.advance(lambda: aw.send(None))
+
+        def first():
+            # a native generator runs its hooks when the method is called, a coroutine method when first sent to
+            aw = self.mk(op, anext)
+            self._aw = aw
+            return aw.send(None)
+        self._aw = None
+        out, det, pend = self.advance(first)
+        aw = self._aw
         if pend:
             self.pending = aw
             self.pending_op = op[0]
@@ -675,7 +682,7 @@ def explore(ctx, cases, label=""):
 # ---------------------------------------------------------------------------------------
 # asyncgen hooks: sys.set_asyncgen_hooks(firstiter, finalizer) x start / abandon / garbage-collect
 
-HOOK_CFGS = [(0, 0), (1, 0), (0, 1), (1, 1)]
+HOOK_CFGS = [(0, 0, 0), (1, 0, 0), (0, 1, 0), (1, 1, 0), (1, 0, 1), (1, 1, 1)]   # firstiter, finalizer, firstiter raises
 HOOK_FIXED = [
     [("L", 1), ("TRY", [("Y", 1), ("Y", 2)], [], [("S", 170), ("L", 2)])],                # awaiting finally
     [("L", 1), ("TRY", [("Y", 1), ("S", 100), ("Y", 2)], [("GE", [("L", 3), ("R", "GE")])], [("L", 2)])],
@@ -705,13 +712,16 @@ def gen_hook_case(rng):
 def run_hook_side(case, kind):
     """Returns (lines, outs, dets, gc_line, cleanup) — or None when a consumer stays suspended (abandoning a
     generator *inside* a consumer is not comparable: CPython 3.12.1 leaves ag_running set, notes/C06.md)."""
-    fi_on, fz_on = case["cfg"]
+    fi_on, fz_on = case["cfg"][:2]
+    fi_raises = len(case["cfg"]) > 2 and case["cfg"][2]
     side = Side(case["hook_prog"], kind)
     ev = []
     cleanup = []
 
     def firstiter(ag):
         ev.append("fi" if ag is side.gen or side.gen is None else "fi!other-object")
+        if fi_raises:
+            raise mp.HookErr()
 
     def finalizer(ag):
         ev.append("fz")
@@ -756,6 +766,7 @@ def run_hook_side(case, kind):
         log = side.log
         side.keep.clear()
         side.pending = None
+        side._aw = None
         side.last_exc = None          # a caught exception's traceback keeps the awaitable and the generator alive
         side.given = None
         side.frame = None
@@ -765,7 +776,10 @@ def run_hook_side(case, kind):
         side.gen = None
         gc.collect()
         gc_line = "hk=" + (",".join(ev[n0:]) or "-")
-        return lines, outs, dets, gc_line, {"aclose": cleanup, "log_after_gc": list(log)[len(log_before):]}
+        after = list(log)[len(log_before):]
+        if any("ignored GeneratorExit" in str(x) for c in cleanup for x in c):
+            after = "(not compared after an ignored GeneratorExit)"
+        return lines, outs, dets, gc_line, {"aclose": cleanup, "log_after_gc": after}
     finally:
         sys.set_asyncgen_hooks(*old)
 
@@ -781,7 +795,9 @@ def explore_hooks(ctx, cases, label=""):
     for case in cases:
         n = run_hook_side(case, "n")
         g = run_hook_side(case, "g")
-        tags = {"hooks-" + {(0, 0): "none", (1, 0): "firstiter-only", (0, 1): "finalizer-only", (1, 1): "both"}[tuple(case["cfg"])]}
+        tags = {"hooks-" + {(0, 0): "none", (1, 0): "firstiter-only", (0, 1): "finalizer-only", (1, 1): "both"}[tuple(case["cfg"][:2])]}
+        if len(case["cfg"]) > 2 and case["cfg"][2]:
+            tags.add("hooks-firstiter-raises")
         if n is None or g is None:
             ctx.case(json.dumps(case, sort_keys=True), ["hooks-abandoned-inside-consumer-skipped"])
             continue
@@ -816,11 +832,11 @@ def explore_hooks(ctx, cases, label=""):
             if seen[k] <= 3:
                 small = shrink_hook_case(case, bad[0])
                 ctx.violation(f"goi-vs-native:hooks:{bad[0]}",
-                              f"{label}asyncgen hooks {dict(zip(('firstiter', 'finalizer'), case['cfg']))}: the "
+                              f"{label}asyncgen hooks {dict(zip(('firstiter', 'finalizer', 'firstiter_raises'), case['cfg']))}: the "
                               f"GeneratorObjectIterator and the native async generator differ ({bad[0]})",
                               small, expected={"native": bad[1]}, observed={"goi": bad[2]},
                               theorem="Asynkit.C06.goi_hooks_call_eq / goi_hooks_gc_eq")
-        pre = ["reset", "prog " + mp.tokens(case["hook_prog"]), "mk", f"hooks {case['cfg'][0]} {case['cfg'][1]}"]
+        pre = ["reset", "prog " + mp.tokens(case["hook_prog"]), "mk", "hooks " + " ".join(str(x) for x in case["cfg"])]
         body, real = [], []
         for ln, no, go in zip(n[0], n[1], g[1]):
             body += ["n " + ln, "g " + ln]
